@@ -10,6 +10,7 @@ from vmon.probe import shard_rng, observe
 from vmon.refs import bip32 as RB
 
 PROPERTY = "C09"
+PRELOAD_NETWORK_ORDERS = [["btc", "xtn", "ltc", "bch", "grs", "doge", "dash", "btg"], ["btg", "grs", "bch", "doge", "ltc", "xtn", "btc"]]
 LEVEL = "exploration"
 TECHNIQUE = ("differential runtime monitor of BIP32/49/84 nodes vs a from-the-BIP reference at every derivation step; "
              "public/private commutation, text round trip per network, path spellings, sub-key cache histories vs fresh nodes")
